@@ -75,6 +75,69 @@ theorem labels_irrelevant (ops : List (Op α)) (t t' : Tbl α) (h : rows t = row
     (run off len ops t).map rows = (run off len ops t').map rows := by
   rw [run_rows, run_rows, h]
 
+/-! ## 1b. Pools of live lists: the receiver and every other live list stay what they were -/
+
+theorem poolStep_ok (i : Nat) (op : Op α) (pool pool' : List (Tbl α)) (h : poolStep off len i op pool = .ok pool') :
+    ∃ t t', pool[i]? = some t ∧ step off len op t = .ok t' ∧ pool' = pool ++ [t'] := by
+  unfold poolStep at h
+  split at h
+  · cases h
+  · rename_i t ht
+    split at h
+    · cases h
+    · rename_i t' hs
+      cases h
+      exact ⟨t, t', ht, hs, rfl⟩
+
+/-- a history over a pool only ever **adds** lists -/
+theorem runPool_extends (ops : List (Nat × Op α)) (pool pool' : List (Tbl α))
+    (h : runPool off len ops pool = .ok pool') : ∃ added, pool' = pool ++ added := by
+  induction ops generalizing pool with
+  | nil => simp only [runPool] at h; cases h; exact ⟨[], by simp⟩
+  | cons iop ops ih =>
+    simp only [runPool] at h
+    split at h
+    · cases h
+    · rename_i p1 hp
+      obtain ⟨t, t', _, _, rfl⟩ := poolStep_ok off len _ _ _ _ hp
+      obtain ⟨added, rfl⟩ := ih _ h
+      exact ⟨t' :: added, by simp⟩
+
+/-- **Receivers are left alone.** No operation of the property is assigning: after any history over a pool of
+live lists, every list that was live before — the receivers of `sorted`, of the filters, of `append`, of
+slicing, and every bystander — is still exactly what it was (rows and labels). Trivial in the functional model;
+on the implementation it is *observed*: every live list is re-read after every step. -/
+theorem runPool_live_unchanged (ops : List (Nat × Op α)) (pool pool' : List (Tbl α))
+    (h : runPool off len ops pool = .ok pool') (k : Nat) (hk : k < pool.length) : pool'[k]? = pool[k]? := by
+  obtain ⟨added, rfl⟩ := runPool_extends off len ops pool pool' h
+  exact List.getElem?_append_left hk
+
+theorem poolStep_rows (i : Nat) (op : Op α) (pool : List (Tbl α)) :
+    (poolStep off len i op pool).map (List.map rows) = poolStepRows off len i op (pool.map rows) := by
+  unfold poolStep poolStepRows
+  rw [List.getElem?_map]
+  cases h : pool[i]? with
+  | none => rfl
+  | some t =>
+    simp only [Option.map_some]
+    have hs := step_rows off len op t
+    cases hst : step off len op t with
+    | error e => rw [hst] at hs; simp only [Except.map] at hs; rw [← hs]; rfl
+    | ok t' => rw [hst] at hs; simp only [Except.map] at hs; rw [← hs]; simp [Except.map]
+
+/-- **Simulation over pools**: any history in which every operation takes any live list as its receiver and
+adds its result to the pool is, row for row, the same history over plain sequences. -/
+theorem runPool_rows (ops : List (Nat × Op α)) (pool : List (Tbl α)) :
+    (runPool off len ops pool).map (List.map rows) = runPoolRows off len ops (pool.map rows) := by
+  induction ops generalizing pool with
+  | nil => rfl
+  | cons iop ops ih =>
+    have h := poolStep_rows off len iop.1 iop.2 pool
+    simp only [runPool, runPoolRows]
+    cases hs : poolStep off len iop.1 iop.2 pool with
+    | error e => rw [hs] at h; simp only [Except.map] at h; rw [← h]; rfl
+    | ok p' => rw [hs] at h; simp only [Except.map] at h; rw [← h]; exact ih p'
+
 /-! ## 2. The plain-sequence function meets the relational specification; any tie order -/
 
 theorem stepRows_spec (op : Op α) (xs : List α) : SpecStep off len op xs (stepRows off len op xs) := by
@@ -680,6 +743,10 @@ example : (run recOff recLen [.sorted false, .slice (some 1) (some 3) none, .hAf
 example : afterT recOff exRows 2 true = .ok [exRows[0], exRows[2]] := by decide +kernel
 example : (afterT recOff exRows 2 false).map rows = .ok [exRows[0].2] := by decide +kernel
 -- Python slices
+-- a pool: sorting list 0 adds list 1 and leaves list 0 in its order; reversing list 0 again does not touch list 1
+example : (runPool recOff recLen [(0, .sorted false), (0, .sorted true), (1, .slice none (some 1) none)] [exRows]).map
+      (List.map (List.map (fun r => recOff r.2)))
+    = .ok [[3, 1, 2, 1], [1, 1, 2, 3], [3, 2, 1, 1], [1]] := by decide +kernel
 example : pySlice [0, 1, 2, 3, 4] (some (-2)) none none = .ok [3, 4] := by decide +kernel
 example : pySlice [0, 1, 2, 3, 4] none none (some (-2)) = .ok [4, 2, 0] := by decide +kernel
 example : pySlice [0, 1, 2, 3, 4] (some 1) (some 100) (some 2) = .ok [1, 3] := by decide +kernel
